@@ -46,9 +46,24 @@ func c17Build(seed int64, ci int, cs c17Case) (atlasfake.Config, [][]byte, [][]b
 	var gzs, raws [][]byte
 	for i := 0; i < cs.n; i++ {
 		nm := fmt.Sprintf("c17-shard-00-%02d.abcde.mongodb.net", i)
-		hosts = append(hosts, nm+":27017")
+		hp := nm + ":27017"
+		switch ci % 4 {
+		case 1: // names outside [A-Za-z0-9.-]
+			nm = fmt.Sprintf("c17_shard_%02d", i)
+			hp = nm + ":27017"
+		case 2: // several members on one machine: the same host name on different ports
+			nm = fmt.Sprintf("c17-multi-%02d.example.net", i/2)
+			hp = fmt.Sprintf("%s:%d", nm, 27017+i)
+		case 3: // IPv6 literals
+			nm = fmt.Sprintf("2001:db8::%x", i+1)
+			hp = "[" + nm + "]:27017"
+		}
+		hosts = append(hosts, hp)
 		names = append(names, nm)
 		raw, z := atlasPayload(gg, i, 9, 1)
+		if prev, dup := payload[nm]; dup && i != cs.k {
+			z = prev
+		}
 		if i == cs.k {
 			switch cs.fault {
 			case "not-gzip":
@@ -139,7 +154,7 @@ func C17() int {
 			recs, crashed, res, aerr := s.Agent([]sut.AgentCmd{
 				{"op": "tmpdir_spell", "kind": c17TmpSpellings[(ci/2)%len(c17TmpSpellings)]},
 				{"op": "tmpdir_list"},
-				{"op": "atlas_download", "n": 1, "base_url": srv.URL(), "pub": atlasPub, "priv": atlasPriv, "project": cfg.Project, "cluster": cfg.Cluster, "start": 1748000000, "end": 1748604800},
+				{"op": "atlas_download", "n": 1, "base_url": srv.URL(), "pub": atlasPub, "priv": atlasPriv, "project": cfg.Project, "cluster": cfg.Cluster, "start": c17Window(ci)[0], "end": c17Window(ci)[1]},
 			}, nil, 3*time.Minute)
 			nreq := len(srv.Log())
 			srv.Close()
@@ -197,7 +212,11 @@ func C17() int {
 		spell := c17TmpSpellings[ci%len(c17TmpSpellings)]
 		env = append(env, "TMPDIR="+c17SpellTmp(dir, spell))
 		c.Count("cli_tmpdir_spelling:"+spell, 1)
-		r := s.CLI(sut.Run{Args: []string{"redact", "--atlasProjectId", cfg.Project, "--atlasClusterName", cfg.Cluster, "-o", outp}, Dir: dir, Env: env, Timeout: 3 * time.Minute})
+		cliArgs := []string{"redact", "--atlasProjectId", cfg.Project, "--atlasClusterName", cfg.Cluster, "-o", outp}
+		if w := c17Window(ci / 2); ci%2 == 1 {
+			cliArgs = append(cliArgs, fmt.Sprintf("--atlasLogStartDate=%d", w[0]), fmt.Sprintf("--atlasLogEndDate=%d", w[1]))
+		}
+		r := s.CLI(sut.Run{Args: cliArgs, Dir: dir, Env: env, Timeout: 3 * time.Minute})
 		if r.TimedOut {
 			c.Inconclusive("watchdog on an Atlas CLI run")
 			return
@@ -237,6 +256,12 @@ func C17() int {
 	}
 	c.Assume("the library contract: on success the returned files belong to the caller (DeleteClusterLogs); on error nothing may remain")
 	return c.Finish("exhaustive: host counts 1–4 × failing host k × fault kind {HTTP 401/404/500, reset before headers, body cut after 0 / 1 / half / len−1 bytes, payload that is not gzip, truncated gzip, gzip with an over-long line, <out>.<k> is a directory} plus cluster-lookup failures and the all-succeed case; library level (DownloadClusterLogs through the agent, TMPDIR listing when it returns) and CLI level through the CONNECT proxy (TMPDIR listing after exit, any status)")
+}
+
+// c17Window: the requested window, including epochs before 1970 (a negative number is a legal value
+// of the date flags and becomes part of the temporary file's name)
+func c17Window(i int) [2]int {
+	return [][2]int{{1748000000, 1748604800}, {-3600, 3600}, {1, 2}, {-86400, -1}}[i%4]
 }
 
 // the temporary directory may be spelled in ways that are not in cleaned form (a trailing slash is
